@@ -32,6 +32,8 @@ fn plan(tier: Tier) -> Vec<Workload> {
         Workload::new("nonterm", tier.pick(64, 640)),
         Workload::new("datascan", 16),
         Workload::new("adapter", tier.pick(20_000, 300_000)),
+        // the work of one call must not depend on the VALUES it computes with
+        Workload::new("values", tier.pick(4_000, 60_000)),
     ]
 }
 
@@ -392,6 +394,48 @@ fn run_case(ctx: &Ctx, index: u64, rep: &mut Report) {
                 Err(_) => rep.count("adapter.panic_left_to_C19"),
             }
         }
+        "values" => {
+            // one statement whose operands are huge, tiny or special values: the call must come back (CPU-time
+            // watchdog of the worker, token-read budget of the driver) after work bounded by the length of the line
+            let big = |rng: &mut crate::util::Rng| -> String {
+                match rng.below(8) {
+                    0 => "4000000000".to_string(),
+                    1 => "1000000000000000000".to_string(),
+                    2 => "9007199254740992".to_string(),
+                    3 => "9007199254740993".to_string(),
+                    4 => format!("1{}", "0".repeat(20 + rng.usize(280))),
+                    5 => "18446744073709551616".to_string(),
+                    6 => "4294967296".to_string(),
+                    _ => format!("{}", rng.next_u64()),
+                }
+            };
+            let base = rng.s(&["1", "-1", "(-1)", "0", "2", "-2", ".5", "1.0000001", "X", "(0-1)", "10"]).to_string();
+            let b = big(&mut rng);
+            let sign = if rng.chance(1, 4) { "-" } else { "" };
+            let line = match rng.below(10) {
+                0..=3 => format!("PRINT {} ^ {}{}", base, sign, b),
+                4 => format!("X = {} : PRINT {} ^ X", b, base),
+                5 => format!("PRINT INT({}{}) ; ABS({}{})", sign, b, sign, b),
+                6 => format!("FOR I = 1 TO {}{} STEP {}", sign, b, rng.s(&["1", "0", "-1", "4000000000"])),
+                7 => format!("DIM A({})", b),
+                8 => format!("PRINT RND({}) ; {} * {} ; {} / {}", b, b, b, b, base),
+                _ => format!("IF {} ^ {} THEN PRINT {} ^ {}{}", base, b, base, sign, b),
+            };
+            let mut sess = Session::new();
+            let case = || json!({"line": line});
+            let l_tokens = abasic_core::verif_hooks::tokenize(&line, 0).map(|t| t.len() as u64).unwrap_or(0);
+            let rec = sess.call(Op::Line(line.clone())).clone();
+            work_check(ctx, rep, index, &sess, l_tokens, &case);
+            let mut turns = 1;
+            while !sess.poisoned && rec.res.is_ok() && sess.state() == InterpreterState::Running && turns < 6 {
+                sess.call(Op::Cont);
+                work_check(ctx, rep, index, &sess, l_tokens, &case);
+                turns += 1;
+            }
+            flush_trips(ctx, rep, index, &sess, case);
+            rep.count("values.statements");
+            rep.nontrivial(hash_str(&line));
+        }
         other => panic!("unknown workload {}", other),
     }
 }
@@ -401,6 +445,7 @@ fn finalize(_tier: Tier, rep: &mut Report) -> Finalize {
         rule: "turns: G-prog programs (with INPUT) run with tracing on; the per-call sequence (trace records, print records, other records, state, result) must equal M-prog's per-turn sequence, which charges one turn per statement and per `:` and counts an IF plus the statement chain it selects as one. \
                bounds: programs of random token lines: per call at most one PRINT record, at most 1 + (#THEN + #ELSE on the line) trace records, all naming the line the call started on. \
                work: for programs without user-defined functions every call's token-cursor reads <= 30 x (tokens on the executing line + 1). nonterm: six non-terminating programs driven 10000 turns with a break + CONT at a random turn. \
+               values: single statements with huge / special operand values (whole-number powers of 1, -1, 0, 2 with exponents up to 10^300, INT/ABS/RND of them, FOR bounds, DIM sizes): the call returns within the token-read budget and the worker's CPU-time budget (a logical watchdog: CPU time of the calling thread, not wall time) and satisfies the work bound. \
                adapter: G-prog programs run through the Web adapter (JsInterpreter::start_evaluating / continue_evaluating, TRACE on in half of the cases): per call at most one PRINT record and at most 1 + max(#THEN + #ELSE of any line) trace records, and as many calls as the core interpreter needs for the same run. \
                Non-trivial (turns): >= 50 turns compared in a program that executed an IF and a NEXT; every nonterm run counts. Distinct by program hash.".into(),
         floors: vec![
@@ -410,6 +455,7 @@ fn finalize(_tier: Tier, rep: &mut Report) -> Finalize {
             ("nonterm.turns".into(), 500_000),
             ("nonterm.breaks".into(), 50),
             ("adapter.calls".into(), 200_000),
+            ("values.statements".into(), 3_000),
             ("distinct_nontrivial".into(), 300),
         ],
         assumptions: vec![
